@@ -100,3 +100,11 @@ def try_arms(fn, call_bi, t):
         else:
             return None
     return None
+
+
+def only_on_edge(fn, sw_block, good, bad, site):
+    """`site` is reached from the `good` successor of the switch in sw_block and never from the `bad` successor
+    without passing the switch again (handles loops, and match guards that fall through into a shared arm block)."""
+    if site not in fn.reachable_from(good, avoid=[sw_block]) and site != good:
+        return False
+    return site not in fn.reachable_from(bad, avoid=[sw_block])
